@@ -167,13 +167,32 @@ def coq_build_models():
 
 
 # ---------------------------------------------------------------- Rust harness
+def harness_dir():
+    """The harness crate depends on pearl by path. For the default /repo the committed crate is used; for
+    another repository location (VERIF_REPO, used by tools/run_seeded.py in a scratch copy) a copy of the
+    crate with the path rewritten is kept under .cache."""
+    if REPO == '/repo':
+        return HARNESS
+    alt = os.path.join(CACHE, 'harness_alt')
+    os.makedirs(os.path.join(alt, 'src'), exist_ok=True)
+    os.makedirs(os.path.join(alt, '.cargo'), exist_ok=True)
+    for f in os.listdir(os.path.join(HARNESS, 'src')):
+        shutil.copy(os.path.join(HARNESS, 'src', f), os.path.join(alt, 'src', f))
+    shutil.copy(os.path.join(HARNESS, '.cargo', 'config.toml'), os.path.join(alt, '.cargo', 'config.toml'))
+    shutil.copy(os.path.join(HARNESS, 'Cargo.lock'), os.path.join(alt, 'Cargo.lock'))
+    toml = open(os.path.join(HARNESS, 'Cargo.toml')).read().replace('path = "/repo"', 'path = "%s"' % REPO)
+    old = open(os.path.join(alt, 'Cargo.toml')).read() if os.path.exists(os.path.join(alt, 'Cargo.toml')) else None
+    if old != toml:
+        open(os.path.join(alt, 'Cargo.toml'), 'w').write(toml)
+    return alt
+
+
 def build_harness(release=False):
     with Lock('cargo'):
-        lock_src = os.path.join(REPO, 'Cargo.lock')
         cmd = ['cargo', 'build', '--offline']
         if release:
             cmd.append('--release')
-        rc, out = run(cmd, cwd=HARNESS, timeout=1800,
+        rc, out = run(cmd, cwd=harness_dir(), timeout=1800,
                       env={'CARGO_TARGET_DIR': TARGET, 'RUSTFLAGS': '--cfg pearl_verif'})
         binp = os.path.join(TARGET, 'release' if release else 'debug', 'pearl_harness')
         return rc == 0 and os.path.exists(binp), out, binp
